@@ -89,4 +89,22 @@ def sliceYOneCoord (yv : Int → Rat) (cy : Int) (i : Int) : Rat := yv (cy + i)
 /-- one component of `psf.centroid(unit='spatial')` given that axis' centre of mass `com` (in samples) -/
 def centroidSpatial (dx com : Rat) (n : Int) : Rat := dx * (com - ((centroidRef n : Int) : Rat))
 
+/-! ## windows and lengths derived from the origin convention elsewhere -/
+
+/-- `psf.autocrop(data, px)`: the window `[lo, hi)` cut around the integer centroid index `c` of one axis -/
+def autocropLo (c px : Int) : Int := c - px / 2
+def autocropHi (c px : Int) : Int := c - px / 2 + px
+/-- `RichData.support_x` / `support_y`: columns (axis 1) span x, rows (axis 0) span y -/
+def supportX (_m n : Int) (dx : Rat) : Rat := (n : Rat) * dx
+def supportY (m _n : Int) (dx : Rat) : Rat := (m : Rat) * dx
+/-- `fourier_resample(f, zoom)`: output length of an axis of length `len` zoomed by `z` (`int(len * z)`) -/
+def resampleOut (len : Int) (z : Rat) : Rat := pyTruncRat ((len : Rat) * z)
+
+/-! ## executable forms used only by the driver (index maps as lists, argmin over exact rationals) -/
+
+/-- first index of a minimal `|v k|`, `0 ≤ k < len` (what `np.argmin(abs(v))` returns on exact data) -/
+def argminAbs (v : Int → Rat) (len : Int) : Int :=
+  let a (x : Rat) : Rat := if x < 0 then -x else x
+  (List.range len.toNat).foldl (fun (best : Int) (k : Nat) => if a (v (k : Int)) < a (v best) then (k : Int) else best) 0
+
 end Model.C04
